@@ -106,6 +106,17 @@ class Convert(Sub):
         F2 = A.in_timezone(pendulum.tz.fixed_timezone(off2))
         expect("in_timezone(fixed seconds)", F2, u, off2, name=None)
         expect("back from UTC", A.in_timezone("UTC").in_timezone(a), u, a)
+        # every documented way of NAMING the target: a number of hours (int or float; quarter hours are exact in binary), a native
+        # datetime.timezone, a ZoneInfo object; through in_timezone / in_tz / from_timestamp / instance(tz=)
+        q = max(-95, min(95, off // 900)) * 900
+        hours = q // 3600 if q % 3600 == 0 and (u >> 3) % 2 else q / 3600
+        expect("in_timezone(hours as a number)", A.in_timezone(hours), u, q)
+        expect("in_tz(hours as a number)", B.in_tz(hours), u, q)
+        expect("in_timezone(datetime.timezone)", A.in_timezone(D.timezone(D.timedelta(seconds=off))), u, off, name=None)
+        expect("in_timezone(ZoneInfo)", A.in_timezone(T.zi(c)), u, c)
+        if u % US == 0:
+            expect("from_timestamp(int, hours as a number)", pendulum.from_timestamp(u // US, tz=hours), u, q)
+        expect("instance(aware, tz=hours) keeps the instant", pendulum.instance(T.render(u, b), tz=hours).in_timezone(hours), u, q)
         # value built by pendulum itself (not via instance)
         P = pendulum.datetime(1970, 1, 1, tz="UTC").add(microseconds=u % US).add(seconds=u // US)
         if T.us(P) == u:
